@@ -503,6 +503,16 @@ def e2_op_strategies(nparts, ngroups, profile):
         'cellbounce': st.tuples(st.integers(0, 3), st.integers(0, 3))
         .map(lambda t: ['macro', [['cellrm', t[0]], ['cycle'],
                                   ['cellev', t[1], True], ['cycle']]]),
+        # macro: allocations are configured, instances run, then the same
+        # allocations (same names) move to other partitions / change traits
+        'allocrepart': st.tuples(e2_allocs(nparts), st.integers(1, 2),
+                                 st.booleans())
+        .map(lambda t: ['macro', [
+            ['allocs', t[0]], ['cycle'],
+            ['allocs', [dict(a, part=(a['part'] + t[1]) % nparts,
+                             traits=0 if t[2] else a['traits'])
+                        for a in t[0]]],
+            ['cycle']]]),
         # macro: a bucket leaves the cell, then a publication step is crashed
         'cellrmcrash': st.integers(0, 3)
         .map(lambda p: ['macro', [['cellrm', p], ['crashcycle']]]),
@@ -536,7 +546,7 @@ E2_WEIGHTS = {
     'stalemark': 0, 'rmsrvrace': 0, 'priorm': 0, 'shrink': 0, 'flap': 0,
     'bouncemove': 0, 'idgrestart': 0, 'allocscrash': 0, 'blchurn': 0,
     'dupstart': 0, 'cellrmcrash': 0, 'cellbounce': 0, 'partsched': 0,
-    'leasesched': 0,
+    'leasesched': 0, 'allocrepart': 0,
     'reboot': 1, 'resize': 1, 'shave': 1, 'repart': 1, 'reparent': 1,
     'state': 1, 'allocs': 1, 'idg': 1, 'rmidg': 1, 'bl': 1, 'blackout': 1,
     'cellev': 1, 'cellrm': 0, 'running': 1, 'adv': 2, 'adv_ret': 1, 'tickreboots': 1,
